@@ -1,9 +1,11 @@
 #!/bin/bash
-# regenerates harness/ipfix_model/zz_filemodel.go from /repo/scripts/ipfix.elements via the real loader
+# regenerates harness/ipfix_model/zz_filemodel.go from <repo>/scripts/ipfix.elements via the real loader
+# (<repo> is /repo; VERIF_REPO overrides it for the seeded-change regression only)
 set -e
 export GOFLAGS=-mod=mod GOPROXY=off GOSUMDB=off GOTOOLCHAIN=local
+R=${VERIF_REPO:-/repo}
 tmp=$(mktemp -d /tmp/verif-genmodel-XXXXXX)
 trap 'rm -rf "$tmp"' EXIT
 cp /verif/tools/genmodel/main.go.txt "$tmp/main.go"
-printf '{"Replace":{"/repo/zz_verif_genmodel/main.go":"%s/main.go"}}' "$tmp" > "$tmp/ov.json"
-cd /repo && go run -overlay "$tmp/ov.json" ./zz_verif_genmodel /repo/scripts/ipfix.elements /verif/harness/ipfix_model/zz_filemodel.go
+printf '{"Replace":{"%s/zz_verif_genmodel/main.go":"%s/main.go"}}' "$R" "$tmp" > "$tmp/ov.json"
+cd "$R" && go run -overlay "$tmp/ov.json" ./zz_verif_genmodel "$R/scripts/ipfix.elements" /verif/harness/ipfix_model/zz_filemodel.go
